@@ -55,6 +55,7 @@ func c12Scenarios(thorough bool) []c12Scenario {
 	}
 	deeps := []interface{}{deep("x", "y", "a"), deep("a"), deep("q", "a", "z", "w")}
 	shared := []interface{}{d1}
+	typed := []interface{}{map[string]interface{}{"n": []int{7, 0}}, map[string]interface{}{"n": []float64{0, 1.5}}, map[string]interface{}{"n": []bool{false}}}
 	mixed := []interface{}{d1, d2, d3}
 	sc := []c12Scenario{
 		{name: "matches 2x1 first use", src: "s matches `a+`", threads: 2, ops: 1, data: shared, bound: -1},
@@ -77,6 +78,14 @@ func c12Scenarios(thorough bool) []c12Scenario {
 		{name: "quantifier over a 3-segment selector 2x1", src: "any a.b.c as x { x == `a` }", threads: 2, ops: 1, data: deeps, bound: -1},
 		{name: "quantifier over a 5-segment selector 2x2", src: "all a.b.d.e.f as i, x { x != `nope` and i != 7 }", threads: 2, ops: 2, data: deeps, bound: 2},
 		{name: "nested quantifiers over deep selectors 2x1", src: "any a.b.c as x { any a.b.d.e.f as y { x == y } }", threads: 2, ops: 1, data: deeps, bound: 2},
+		// error paths: a pattern that never compiles (first use and steady state), a literal that never coerces, absent fields - the calls fail, sharing must still be safe
+		{name: "invalid pattern 2x1 first use", src: "s matches `(`", threads: 2, ops: 1, data: shared, bound: -1},
+		{name: "invalid pattern 2x2 mixed data", src: "s matches `a(` or t matches `[b`", threads: 2, ops: 2, data: mixed, bound: -1},
+		{name: "invalid pattern steady state 3x1", src: "s not matches `(?P<n`", threads: 3, ops: 1, data: shared, warm: true, bound: -1},
+		{name: "invalid pattern in quantifier 2x1", src: "any l as x { x matches `*` }", threads: 2, ops: 1, data: mixed, bound: -1},
+		{name: "invalid pattern filter 2x1", src: "f matches `(`", filter: true, threads: 2, ops: 1, data: []interface{}{cont}, bound: -1},
+		{name: "uncoercible literal over typed slices 2x2", src: "`abc` in n or n contains `1.5`", threads: 2, ops: 2, data: typed, bound: -1},
+		{name: "absent field and index errors 2x2", src: "s.zz == 1 or l.9 == `a` or zz.q is empty", threads: 2, ops: 2, data: mixed, bound: -1},
 		{name: "matches 3x2 first use (bounded)", src: "s matches `a+`", threads: 3, ops: 2, data: mixed, bound: 2},
 		{name: "two caches 3x1 (bounded)", src: "s matches `a` or t matches `b`", threads: 3, ops: 1, data: mixed, bound: 2},
 	}
